@@ -1186,8 +1186,8 @@ pub fn run(ctx: &Ctx) {
 
 pub fn replay(check: &str, input: &Value, stats: &mut Stats) -> Option<Vec<Failure>> {
     let b = Budget { inproc_runs: 16, process_runs: 4 };
-    // order-dependent failures: repeat the stored case up to 64 times
-    for _ in 0..64 {
+    // order-dependent failures: repeat the stored case up to 16 times (16 x 20 runs of the tool)
+    for _ in 0..16 {
         let fails = match check {
             "c13.fixed" => {
                 let mode = if input["mode"].as_str()? == "zod" { "zod" } else { "none" };
